@@ -84,7 +84,7 @@ def get_1dchain_2local_pauli_basis(num_qubit, with_I=False):
     assert num_qubit>=2
     pauli_list = [numqi.gate.I, numqi.gate.X, numqi.gate.Y, numqi.gate.Z]
     pauli2_list = [np.kron(x,y) for x in pauli_list for y in pauli_list][1:]
-    ret = [np.eye(num_qubit)] if with_I else []
+    ret = [np.eye(2**num_qubit)] if with_I else []
     for ind0 in range(num_qubit-1):
         tmp0 = [None,None,None]
         if ind0>0:
